@@ -23,7 +23,12 @@ Alphabet ==
        {<<"comp", c>> : c \in Pool} \cup {<<"compmut", c>> : c \in Pool}
   \cup {<<"oneof", "Ca", "Cc">>, <<"oneof", "Ca", "Cb">>, <<"oneofmut", "Cb", "Cc">>}
   \cup {<<"ent", "Aa">>, <<"ent", "Ab">>, <<"dir", "Ab">>, <<"wild">>, <<"any">>, <<"dwild">>, <<"dany">>}
-DecoParams == UNION {[1..k -> [p : Alphabet, pred : Preds \cup {0}]] : k \in 1..MaxParams}
+\* pred: 0 = undecorated, p = #[cfg(p)], 12 / 21 = two STACKED attributes #[cfg(1)] #[cfg(2)] in
+\* either order (the parameter is enabled iff both hold); stacks only on the first parameter, which
+\* keeps the enumeration small and still reaches every (truth of first, truth of last) combination
+Stacks == {12, 21}
+DecoParams == UNION {{f \in [1..k -> [p : Alphabet, pred : Preds \cup {0} \cup Stacks]] :
+                          \A i \in 2..k : f[i].pred \notin Stacks} : k \in 1..MaxParams}
 Asgs == [Preds -> BOOLEAN]
 
 VARIABLE inp
@@ -31,7 +36,9 @@ Init == inp \in [decl : Decls, dparams : DecoParams, asg : Asgs]
 Next == UNCHANGED inp
 Spec == Init /\ [][Next]_inp
 
-EnabledP(dp) == dp.pred = 0 \/ inp.asg[dp.pred]
+EnabledP(dp) == CASE dp.pred = 0 -> TRUE
+                  [] dp.pred \in Preds -> inp.asg[dp.pred]
+                  [] OTHER -> \A q \in Preds : inp.asg[q]
 Twin == LET en == SelectSeq(inp.dparams, EnabledP) IN [i \in DOMAIN en |-> en[i].p]
 
 TypeOf(arch, p) ==
